@@ -31,8 +31,8 @@ SHARD_TIMEOUT = {"quick": 900, "thorough": 3600}
 NAMES = ["T", "U"]
 BLOCK_EVENTS = ["typedef", "obj", "objinit", "obj2", "enum", "enumval", "tag", "etag", "member", "label", "proto", "for",
                 "open", "close", "struct_enum", "selfinit", "sizeof_enum_init", "ubitfield", "tagobj", "for_if", "fname_typedef",
-                "etagref", "forif", "ifnoelse"]
-NEUTRAL_EVENTS = {"open", "close", "etagref", "forif", "ifnoelse"}   # events that involve none of the tracked names
+                "etagref", "forif", "ifnoelse", "nestinit"]
+NEUTRAL_EVENTS = {"open", "close", "etagref", "forif", "ifnoelse", "nestinit"}   # events that involve none of the tracked names
 KF_EVENTS = {"for_if": "K11", "enum": "K08", "enumval": "K08", "struct_enum": "K08", "sizeof_enum_init": "K08", "label": "K08",
              "for": "K11", "selfinit": "K12", "objinit": "K12", "kr": "K13", "nested": "K13"}
 
@@ -234,6 +234,15 @@ def apply_event(P, sc, ev, n, depth_left, rename=None):
         if len(sc.stack) < 2:
             return False
         P.lines.append("if (v) if (v) v = 2;")
+    elif ev == "nestinit":
+        # braces that open no scope of their own, nested directly inside each other (initializer lists, compound literals)
+        if len(sc.stack) < 2:
+            return False
+        k = P.uid % 4
+        P.lines.append([f"int {P.fresh('ni')}[2][2] = {{{{1, 2}}, {{3, 4}}}};",
+                        f"struct {{ int a[2]; int b; }} {P.fresh('ni')} = {{{{1, 2}}, 3}};",
+                        f"int *{P.fresh('ni')} = (int[]){{ ((int[]){{1, 2}})[0], 3 }};",
+                        f"int {P.fresh('ni')}[2][1][1] = {{{{{{1}}}}, {{{{2}}}}}};"][k])
     elif ev == "open":
         if depth_left <= 0 or len(sc.stack) < 2:
             return False
@@ -318,7 +327,7 @@ def build_program(u_kind, events, param=None, kr=False, nested=False, renames=No
         if r == "opened":
             opened += 1
             depth_left -= 1
-        if (ev in NEUTRAL_EVENTS and ev not in ("open", "close")) or ev == "for_if":
+        if (ev in NEUTRAL_EVENTS and ev not in ("open", "close", "nestinit")) or ev == "for_if":
             continue   # no probe: the token that follows a neutral event must be the next event's own first token
         P.probe(sc)
     while opened:
